@@ -145,7 +145,7 @@ def instant_order_findings(rm: RunModel, events):
 _C06_CACHE = {}
 
 
-def absorb_arith(model, rep, rule, triples):
+def absorb_arith(model, rep, rule, triples, solver_log=False):
     """the solver IR interprets quantity arithmetic natively (SI magnitudes); which dunder Python actually dispatches to
     (reflected methods of subclasses included) and what it returns is decided by C06's dispatch model - the triples the
     property's formulas use are re-reported here under the dependent id"""
@@ -158,6 +158,17 @@ def absorb_arith(model, rep, rule, triples):
         _C06_CACHE.clear()
         _C06_CACHE[key] = dep
     dep = _C06_CACHE[key]
+    triples = list(triples)
+    if solver_log:
+        # operator triples the solver IR met that none of the per-property lists names (a refactoring brought a new operation
+        # into the step): re-read them as well, under whichever property asks
+        try:
+            rm = run_model(model)
+            rm.instants()
+            known = set(TIME_ARITH + EULER_ARITH + KIN_ARITH + TORQUE_ARITH)
+            triples += sorted(t for t in rm.ir.sx.arith_log if t not in known)
+        except Exception:
+            pass            # the IR's own failures are reported by the rules that need it
     want = {' '.join(t) for t in triples}
     n = 0
     for i in dep.instances:
